@@ -225,15 +225,57 @@ def blocksMarked (geo : Geom) : Acc → List Nat → Bool
   | _, [] => true
   | s, b :: bs => blockMarked geo s b && blocksMarked geo (freeBlock true geo s b) bs
 
+/-- deallocateExtents' release of one block `b` (absolute block number): the block bitmap bit is cleared, the
+    group's counter and the superblock counter go up by one.  `fixed = false` is the code as found: the group is
+    taken as `(b-1)/bpg` (right only when firstDataBlock = 1) and the bit as `b - (fdb + bg*bpg)`, so that with
+    firstDataBlock = 0 the first block of a group is credited to the group in front of it at bit `bpg` (a padding
+    bit, outside the group's real bits).  `fixed = true` computes both from `b - fdb`, as Remove does. -/
+def deallocBlock (fixed : Bool) (geo : Geom) (s : Acc) (b : Nat) : Acc :=
+  let bg := if fixed then (b - geo.fdb) / geo.bpg else (b - 1) / geo.bpg
+  let idx := b - (geo.fdb + bg * geo.bpg)
+  { groups := modifyAt s.groups bg fun g =>
+      { g with bbm := clearRun g.bbm idx 1, freeBlocks := g.freeBlocks + 1 },
+    sbFreeBlocks := s.sbFreeBlocks + 1, sbFreeInodes := s.sbFreeInodes }
+
+def deallocBlocks (fixed : Bool) (geo : Geom) (s : Acc) (blocks : List Nat) : Acc :=
+  blocks.foldl (deallocBlock fixed geo) s
+
+/-- the blocks are marked, one after the other (so pairwise distinct) -/
+def blocksMarkedD (geo : Geom) : Acc → List Nat → Bool
+  | _, [] => true
+  | s, b :: bs => blockMarked geo s b && blocksMarkedD geo (deallocBlock true geo s b) bs
+
+/-- deallocateExtents (repaired arithmetic) on absolute block numbers as an operation of the machine -/
+def freeBlocksOp (geo : Geom) (s : Acc) (blocks : List Nat) : Res :=
+  if blocksMarkedD geo s blocks then .ok (deallocBlocks true geo s blocks) else .refused s
+
+/-- is inode `ino` (numbered from 1) marked in its group's inode bitmap -/
+def inodeMarked (geo : Geom) (s : Acc) (ino : Nat) : Bool :=
+  1 ≤ ino && match s.groups[(ino - 1) / geo.ipg]? with
+    | some g => allAre true g.ibm ((ino - 1) % geo.ipg) 1
+    | none => false
+
+/-- Remove (repaired bookkeeping) as an operation of the machine. The code trusts the inode: it clears the bits of
+    the blocks the extent tree names and counts every Clear; the machine carries that out when the blocks (data
+    and extent-tree blocks, pairwise distinct) and the inode are marked, which is what ownership means, and
+    leaves the state alone otherwise. -/
+def removeOp (geo : Geom) (s : Acc) (ino : Nat) (blocks : List Nat) (isDir : Bool) : Res :=
+  if blocksMarked geo s blocks && inodeMarked geo s ino then .ok (removeInode true geo s ino blocks 0 isDir)
+  else .refused s
+
 inductive Op where
   | alloc (n : Nat) (choice : Option (List Run))
   | dealloc (rs : List Run)
   | newInode (isDir : Bool)
+  | remove (geo : Geom) (ino : Nat) (blocks : List Nat) (isDir : Bool)
+  | free (geo : Geom) (blocks : List Nat)
 deriving Repr, DecidableEq
 
 def step (s : Acc) : Op → Res
   | .alloc n c => allocExtents s n c
   | .dealloc rs => deallocExtents s rs
   | .newInode d => allocInode s d
+  | .remove geo ino blocks d => removeOp geo s ino blocks d
+  | .free geo blocks => freeBlocksOp geo s blocks
 
 end Diskfs.Ext4.Alloc
